@@ -20,6 +20,7 @@ package tss
 // keccak256 of the concatenation of its arguments: abstract (uninterpreted hash)
 //@ func Hash
 //@ abstract
+//@ ensures len(result) == 32
 
 // curve / encoding helpers: abstract (uninterpreted functions of their arguments)
 // left-padding with zero bytes up to the given length (longer inputs are returned unchanged)
